@@ -173,7 +173,8 @@ struct Slot {
     uint64_t tb_refused_at = 0, tb_refused_polls = 0;
     bool tb_refusal_armed = false;
     // C19: occurrences of this module (gseq of observed edges)
-    std::vector<uint64_t> occ_started, occ_stopped;
+    struct Occ { uint64_t gseq; uint64_t end; size_t depth; };   // end: when the call that caused it was through with it (the notification is emitted after the start/stop callback returns)
+    std::vector<Occ> occ_started, occ_stopped;
     uint64_t reg_gseq = 0;
     std::map<std::string, int> sys_received;     // key "topic|senderslot" -> count
     std::vector<uint64_t> tick_times;
